@@ -259,4 +259,5 @@ def jobs(tier):
 
 
 def main(report, tier):
-    return summarize(report, runner.run_tasks(jobs(tier)), 'C02')
+    from . import mnode
+    return summarize(report, runner.run_tasks(jobs(tier) + mnode.jobs_for('C02', tier)), 'C02')
